@@ -417,10 +417,47 @@ function familyP (tier, opts = {}) {
   return { leaves, stats }
 }
 
+// K: operations placed BARE (no parentheses of their own) in positions whose grammar takes only a narrow class of
+// expressions, or where a neighbouring operator binds tighter or looser than what replaces the operation: the
+// replacement has to bring exactly the parentheses that keep the parse the same
+const K_OPS = ['s.trim()', 's?.trim()', 'o?.p.concat(b)', 'g?.(a).trim()', 'o.q?.(a).concat(b)', 'o?.p?.concat(b)', 'o?.[k].trim()', '`${a}${f()}`', 'X.prototype.concat.call(a, f())', 'aloneMethod(a)',
+  'g().concat(f())', 'new X().concat(a)', 'a + f()', 'o.p += f()', 'o?.p.concat(b) + a', 'o?.p + f()', 'x += f()']
+const K_CTX = ['a ?? @@', '@@ ?? a', 'a ?? @@ ?? b', 'a || @@', '@@ || a', 'a && @@', '@@ && a', 'new @@', 'new @@()', '@@`t`', '@@ ** 2', '2 ** @@', '-@@', '+@@', '~@@', 'typeof @@', 'void @@', 'delete @@', '@@.p', '@@[0]', '@@()',
+  '@@?.p', '@@?.()', 'a ? @@ : b', '@@ ? a : b', 'a ? b : @@', 'a, @@', '@@, a', 'y = @@', 'y ??= @@', 'y ||= @@', '@@ in o', 'k in @@', '@@ instanceof X', 'a < @@', '@@ < a', 'a == @@', 'a + @@', '@@ + a', 'a - @@', '@@ - a', 'a * @@', '!@@',
+  'q => @@', '[@@]', '[...@@]', 'h(...@@)', '({p: @@})', '({...@@})', '`${@@}`', 'o[@@]', 'o?.[@@]', 'g?.(@@)', 'o?.q(@@)', 'y = m = @@', '@@ ? @@ : @@', 'a ?? @@ + b', 'i | @@', 'i ^ @@ & i', 'class extends @@ {}', 'a ?? @@ ?? @@', '@@ || @@ && @@']
+function familyK (tier, opts = {}) {
+  const leaves = []
+  const stats = { states: 1, transitions: 0 }
+  const ops = tier === 'thorough' ? K_OPS : K_OPS.slice(0, 12)
+  for (const ctx of K_CTX) for (const op of ops) for (const config of (tier === 'thorough' ? ['FULL', 'METHODS_ONLY', 'PLUS_ONLY'] : ['FULL'])) {
+    stats.states++; stats.transitions++
+    leaves.push(mkLeaf('K', { op, opkind: 'tight', exprctx: ctx, config }))
+  }
+  return { leaves, stats }
+}
+
+// LEXICAL: literal tokens whose spelling matters (escapes that stand for a delimiter, a backslash or `${`, next to
+// ASCII / non-ASCII / astral text), generated as prefix x escape x suffix per literal kind; the printer re-spells
+// literals, and a re-spelling that decodes an escape ends the literal early
+function lexicalTokens (tier) {
+  const out = []
+  const pre = ['', 'é', '😀', 'é\u200d']
+  const tplEsc = ['\\x60', '\\u0060', '\\u{60}', '\\`', '\\x5c', '\\\\', '\\x24{', '\\${', '$\\{', '\\x0a', '\\r', '\\0', '\\xe9', '\\u00e9', '\\u{1F600}', '\\\n', '\r\n', '$', '\\x7b']
+  for (const p of pre) for (const e of tplEsc) for (const suf of ['', 'z', '${a}', '${a}\\x60']) out.push('`' + p + e + suf + '`')
+  const strEsc = ['\\x27', '\\x22', "\\'", '\\"', '\\x5c', '\\\\', '\\x0a', '\\u2028', '\u2028', '\u2029', '\\0', '\\xe9', '\\u{1F600}', '\\\n', '\\x0d', '</script>', '\\u00e9']
+  for (const q of ["'", '"']) for (const p of pre) for (const e of strEsc) for (const suf of ['', 'z']) out.push(q + p + e + suf + q)
+  const reEsc = ['\\/', '[/]', '\\x2f', '\\u002f', '\\\\', '[\\]]', '\\x5c', '(?<n>a)\\k<n>', '\\p{L}', '[^]']
+  for (const p of pre) for (const e of reEsc) for (const fl of ['', 'g', 'u', 'v']) { if ((fl === 'u' || fl === 'v') && e === '\\x5c') continue; out.push('/' + p + e + '/' + fl) }
+  for (const n of ['0b101', '0o17', '1_000', '.5e-3', '0x1Fn', '1e21', '0.0000001', '5..toString()', '1.e3', '0xFFFFFFFFFFFFFFFFn', '-0', '017', '09.5']) out.push(n)
+  for (const id of ['\\u0061bc', 'ñu', '\\u{62}c', 'a\u200d', 'ℓ', '$\\u0024', 'l\\u0065t']) out.push(id)
+  return tier === 'thorough' ? out : out.filter((_, i) => i % 1 === 0)
+}
+const LEX_PLACES = ['function f(a, b, abc, bc, ñu, ℓ) { const u = @@; return a + b }', 'function f(a, b, abc, bc, ñu, ℓ) { return a + @@ }', 'function f(a, b, abc, bc, ñu, ℓ) { return `${@@}${a}`.concat(@@) }', 'function f(a, b, abc, bc, ñu, ℓ) { "use strict"; return h(@@) + a }']
+
 function all (tier, opts = {}) {
   let leaves = []
   let stats = { states: 1, transitions: 0 }
-  const fams = { A: familyA, B: familyB, C: familyC, G: familyG, M: familyM, S: familyS, P: familyP, T: familyT, H: familyH, Q: familyQ, R: familyR, N: familyN, L: familyL }
+  const fams = { A: familyA, B: familyB, C: familyC, G: familyG, M: familyM, S: familyS, P: familyP, T: familyT, H: familyH, Q: familyQ, R: familyR, N: familyN, L: familyL, K: familyK }
   for (const f of (opts.families || ['A', 'B', 'C', 'G'])) {
     const r = fams[f](tier, opts[f] || {})
     leaves = leaves.concat(r.leaves)
@@ -433,4 +470,4 @@ function all (tier, opts = {}) {
   return { leaves: uniq, stats }
 }
 
-module.exports = { familyN, familyL, familyH, familyQ, familyR, familyT, familyP, familyA, familyB, familyC, familyG, familyM, familyS, M_FNS, S_STMTS, all, REP_OPS, REP_OPS_Q, CONFIGS, mkLeaf }
+module.exports = { lexicalTokens, LEX_PLACES, familyK, familyN, familyL, familyH, familyQ, familyR, familyT, familyP, familyA, familyB, familyC, familyG, familyM, familyS, M_FNS, S_STMTS, all, REP_OPS, REP_OPS_Q, CONFIGS, mkLeaf }
